@@ -371,15 +371,18 @@ class _FPCoreCompileInstance(Visitor):
 
     def _visit_range3(self, start: Expr, stop: Expr, step: Expr, ctx: None) -> fpc.Expr:
         # range(start, stop, step) =>
-        # (tensor ([i (! :precision integer (ceil (/ (- stop start) step)))])
+        # (tensor ([i (! :precision integer :round toPositive (/ (- stop start) step))])
         #   (! :precision integer (+ (* i step) start)))
+        # The quotient is rounded up as it is rounded to an integer: under the
+        # default rounding it would be an integer already before any `ceil`
+        # saw it (`range(0, 7, 3)` would have two elements).
         tuple_id = str(self.gensym.fresh('i'))
         start_expr = self._visit_expr(start, ctx)
         stop_expr = self._visit_expr(stop, ctx)
         step_expr = self._visit_expr(step, ctx)
         return fpc.Tensor(
-            [(tuple_id, fpc.Ctx(_integer_props(),
-                fpc.Ceil(fpc.Div(fpc.Sub(stop_expr, start_expr), step_expr))))],
+            [(tuple_id, fpc.Ctx(_integer_props(round='toPositive'),
+                fpc.Div(fpc.Sub(stop_expr, start_expr), step_expr)))],
             fpc.Ctx(_integer_props(),
                 fpc.Add(fpc.Mul(fpc.Var(tuple_id), step_expr), start_expr))
         )
